@@ -105,9 +105,10 @@ class Sender:
         atoms = atoms[:255]
         n = len(atoms)
         if n == 0:
+            self.last = "0 || 00 || -"
             return bytes([131, 68, 0]) + b"".join(termgen.enc_value(etf.denote(t), self.rng, canonical=True) for t in terms)
         long_atoms = any(len(a) > 255 for a in atoms)
-        nibbles, entries = [], b""
+        nibbles, entries, toks = [], b"", []
         for pos, a in enumerate(atoms):
             s, new = self.slot_for(a)
             if s is None:
@@ -118,6 +119,7 @@ class Sender:
                     s = max(list(self.cache) + [0]) + 1 if max(list(self.cache) + [0]) < 2047 else s
                 self.cache[s] = a
             nibbles.append((8 if new else 0) | (s >> 8))
+            toks.append("N:%d:%d:%s" % (s >> 8, s & 0xff, a.hex() or "_") if new else "O:%d:%d" % (s >> 8, s & 0xff))
             entries += bytes([s & 0xff])
             if new:
                 entries += (struct.pack(">H", len(a)) if long_atoms else bytes([len(a)])) + a
@@ -126,6 +128,9 @@ class Sender:
             nibbles.append(0)
         flags = bytes(nibbles[i] | (nibbles[i + 1] << 4) for i in range(0, len(nibbles), 2))
         index = {a: i for i, a in enumerate(atoms)}
+        # what the sender did, for the comparison with the Coq sender model (model-only op sndchk)
+        self.last = "%d %s || %s || %s" % (1 if long_atoms else 0, " ".join(toks), (bytes([n]) + flags + entries).hex(),
+                                        ",".join(a.hex() or "_" for a in atoms))
         body = b"".join(self.enc(etf.denote(termgen.strip_loc(t)), index) for t in terms)
         return bytes([131, 68, n]) + flags + entries + body
 
@@ -207,11 +212,11 @@ def run(ctx):
         if o != "match":
             ctx.disagreements.append(("codec", c, "(bytes produced by the implementation)", o))
     # ---- reader ----
-    rcases, meant = [], {}
+    rcases, meant, schk = [], {}, []
     for _ in range(ctx.budget(900, 20000)):
         mode = rng.choice(["lib", "seg0", "any", "any"])
         snd = Sender(rng, mode)
-        msgs, want, odd_long = [], [], False
+        msgs, want, odd_long, did = [], [], False, []
         for _m in range(rng.choice([1, 2, 3, 5])):
             ts = gen_terms(rng)
             atoms = set()
@@ -221,6 +226,7 @@ def run(ctx):
                 odd_long = True
             data = snd.message(ts)
             msgs.append(data.hex())
+            did.append(snd.last)
             want.append([etf.denote(termgen.strip_loc(t)) for t in ts])
         case = "hdrdec " + ",".join(msgs)
         # the spec reader must agree with the sender (self-check of the oracle)
@@ -229,6 +235,15 @@ def run(ctx):
             c, p = etf.spec_read_dist_message(bytes.fromhex(d), cache)
             assert [c] + ([p] if p is not None else []) == w, "spec sender/reader disagree"
         rcases.append(case)
+        schk.append("sndchk " + " ;; ".join(did))
         meant[case] = (want, mode, odd_long)
     ctx.diff_domain("codec", rcases, oracle=reader_oracle(meant), nontrivial=lambda c, i: c if c.count(",") >= 1 else None,
                     classify=lambda c, i: ["op:hdrdec", "msgs:%d" % (c.count(",") + 1), "sender:" + meant[c][1]])
+    # the sender of the theorems (Codec/AtomCache.v) is the sender of these histories: same header bytes, same atoms meant
+    outs = vlib.run_lines(vlib.MODEL_BIN, "codec", schk)
+    for c, o in zip(schk, outs):
+        ctx.evaluations += 1
+        ctx.traces += 1
+        ctx.hist["op:sndchk:" + o.split()[0]] += 1
+        if o != "match":
+            ctx.disagreements.append(("codec", c[:400], "(header bytes and atoms of the spec sender)", o))
